@@ -119,11 +119,15 @@ def run(chk: common.Check, tier: str):
         "Require Import Tables.\n"
         "Lemma nullable_table_monotone : monotone_tbl nullable_tbl = true.\nProof. vm_compute. reflexivity. Qed.\n"
         "Lemma nullable_table_total : total_tbl nullable_tbl = true.\nProof. vm_compute. reflexivity. Qed.\n"
-        "Lemma nullable_table_wf : wf_tbl nullable_tbl iter_fields_tbl = true.\nProof. vm_compute. reflexivity. Qed.\n")
+        "Lemma nullable_table_wf : wf_tbl nullable_tbl iter_fields_tbl = true.\nProof. vm_compute. reflexivity. Qed.\n"
+        "From Pegen Require Import Proofs.VisitAll.\n"
+        "Lemma nullable_table_visits_all : visit_all_ok nullable_tbl iter_fields_tbl = true.\nProof. vm_compute. reflexivity. Qed.\n")
     rc, out = common.coqc(d / "Instances.v")
     chk.oblige("instance lemmas: the extracted NullableVisitor table is monotone (no negation of visits) and total "
                "(every method visits all its children, no short-circuit) and well-formed (every attribute and method it "
-               "mentions exists: no visit_* method for a class that is never dispatched)", rc == 0, out[-2000:])
+               "mentions exists: no visit_* method for a class that is never dispatched) and visits everything (visit_all_ok: "
+               "every class has a method, visit_NamedItem is the flag-setting hook; hypothesis of C03_item_flags_are_exact / "
+               "C03_first_graph_order_independent)", rc == 0, out[-2000:])
     r = common.rng("c03-perm")
     cases, descs, jobs, jobmeta = [], [], [], []
     vcases, vdescs = [], []
